@@ -4,11 +4,15 @@ package main
 // ArchivePathsFromManifest) with the Lean transcription Dawgs.C20.sanitize (Go path.Clean included).
 //
 //	path <hex of the UTF-8 name>   ->   ok <hex of the cleaned path> | err <empty|backslash|absolute|traversal|invalid>
+//	clean <hex>                    ->   <hex of Go's path.Clean>            (the model's pathClean, rooted / `..` cases included)
+//	join <hex out> <hex rel>       ->   <hex of filepath.Join(out, filepath.FromSlash(rel))>   (the model's joinOut; out non-empty)
 
 import (
 	"bufio"
 	"encoding/hex"
 	"fmt"
+	"path"
+	"path/filepath"
 	"strings"
 	"unicode/utf8"
 
@@ -52,6 +56,31 @@ type c20PathRunner struct{ stats *Stats }
 func (c20PathSuite) NewRunner(stats *Stats) Runner { return &c20PathRunner{stats: stats} }
 
 func (r *c20PathRunner) Step(t []string, raw string) string {
+	switch {
+	case t[0] == "clean" && len(t) <= 2:
+		arg := ""
+		if len(t) == 2 {
+			arg = t[1]
+		}
+		b, err := hex.DecodeString(arg)
+		if err != nil {
+			return "bad-op"
+		}
+		r.stats.Inc("branch.clean")
+		return "= " + hex.EncodeToString([]byte(path.Clean(string(b))))
+	case t[0] == "join" && (len(t) == 2 || len(t) == 3):
+		out, err1 := hex.DecodeString(t[1])
+		rel := []byte{}
+		var err2 error
+		if len(t) == 3 {
+			rel, err2 = hex.DecodeString(t[2])
+		}
+		if err1 != nil || err2 != nil || len(out) == 0 {
+			return "bad-op"
+		}
+		r.stats.Inc("branch.join")
+		return "= " + hex.EncodeToString([]byte(filepath.Join(string(out), filepath.FromSlash(string(rel)))))
+	}
 	if len(t) == 1 && t[0] == "path" {
 		t = append(t, "")
 	}
@@ -81,7 +110,10 @@ func (c20PathSuite) Gen(rng *Rng, tier string, w *bufio.Writer, stats *Stats) {
 					stats.Inc("gen.skipped_invalid_utf8")
 					continue
 				}
-				fmt.Fprintf(w, "path %s\n", hex.EncodeToString([]byte(strings.ReplaceAll(name, "{ROOT}", "/tmp/root"))))
+				h := hex.EncodeToString([]byte(strings.ReplaceAll(name, "{ROOT}", "/tmp/root")))
+				fmt.Fprintf(w, "path %s\n", h)
+				fmt.Fprintf(w, "clean %s\n", h)
+				fmt.Fprintf(w, "join %s %s\n", hex.EncodeToString([]byte(Pick(rng, []string{"/out", "/", "/tmp/x/../dest/", "rel/out", ".", "..", "//a//b/./"}))), h)
 				stats.Inc("gen.path")
 			}
 			names = names[n:]
